@@ -19,7 +19,7 @@ VARIABLES
     level,    \* [ep -> bucket level in milli-bytes]
     tPrev,    \* [ep -> time of the latest emission, ms]
     rttNow, rttPrev,   \* [ep -> RTT estimate in ms (rounded up) at the latest / previous step, 0 if none]
-    tStep, gapNow, gapPrev,   \* [ep -> time of the latest step; the two latest step spacings, ms]
+    tStep, gapNow, gapPrev,   \* [ep -> time of the latest step; largest step spacing so far (ms); largest RTT estimate so far (ms)]
     nemit,    \* emissions judged (evidence)
     peak,     \* largest level/bound ratio seen, in percent (evidence)
     bad
@@ -46,8 +46,8 @@ Step ==
            ms == IF Cur.rtt_us < 0 THEN 0 ELSE (Cur.rtt_us + 999) \div 1000
        IN /\ rttPrev' = [rttPrev EXCEPT ![e] = rttNow[e]]
           /\ rttNow' = [rttNow EXCEPT ![e] = ms]
-          /\ gapPrev' = [gapPrev EXCEPT ![e] = gapNow[e]]
-          /\ gapNow' = [gapNow EXCEPT ![e] = Min(Max(Cur.t - tStep[e], 0), 1000)]
+          /\ gapPrev' = [gapPrev EXCEPT ![e] = Max(@, ms)]
+          /\ gapNow' = [gapNow EXCEPT ![e] = IF tStep[e] = 0 THEN @ ELSE Max(@, Min(Max(Cur.t - tStep[e], 0), 100000))]
           /\ tStep' = [tStep EXCEPT ![e] = Cur.t]
     /\ UNCHANGED <<ceil, level, tPrev, nemit, peak, bad>>
 
@@ -64,12 +64,13 @@ Emit ==
            bound == r * rtt + 1472000
        IN /\ level' = [level EXCEPT ![e] = Min(lv, 2000000000)]
           /\ tPrev' = [tPrev EXCEPT ![e] = Cur.t]
-          \* Credit is granted in step() for the time since the previous step but spent by flushes
-          \* after it: a flush / step / flush sequence at one instant can put one step spacing of
-          \* credit plus one more frame on the wire at once.  That excess is reported under its own
-          \* reason (known finding F22); anything beyond it is a different violation.
-          /\ LET gap == Max(gapNow[e], gapPrev[e])
-                 slack == IF r * gap <= 1000000000 THEN r * gap + 1472000 ELSE 1000000000
+          \* Credit is granted in step() for the time since the previous step (capped at rate * RTT)
+          \* but spent by flushes after it: a flush / step / flush sequence at one instant can put
+          \* that much credit plus one more frame on the wire at once, and a sender running at the
+          \* full ceiling never pays it back.  That excess is reported under its own reason (known
+          \* finding F22); anything beyond it is a different violation.
+          /\ LET gap == Min(gapNow[e], gapPrev[e])
+                 slack == IF gap <= 1000000000 \div r /\ r * gap <= 1000000000 THEN r * gap + 1472000 ELSE 1000000000
              IN bad' = bad \cup (IF judged /\ lv > bound /\ lv - bound <= slack THEN Flag("C13", "burst-within-one-step-of-credit") ELSE {})
                            \cup (IF judged /\ lv > bound /\ lv - bound > slack THEN Flag("C13", "burst-above-ceiling") ELSE {})
           /\ nemit' = IF judged THEN nemit + 1 ELSE nemit
